@@ -89,6 +89,56 @@ func keepDecoded(c *Ctx, codec string, mode vmodel.Mode, v any, label string) {
 	keptN++
 }
 
+// encoded bytes handed to the caller must stay what they were when later values are encoded
+type keptBytes struct {
+	b     []byte
+	hash  uint64
+	label string
+	codec string
+}
+
+var bytesRing [8]keptBytes
+var bytesN int
+
+func keepEncoded(c *Ctx, codec string, b []byte, label string) {
+	for i := range bytesRing {
+		k := &bytesRing[i]
+		if k.b == nil {
+			continue
+		}
+		if H64(string(k.b)) != k.hash {
+			c.Fail(k.codec+"|encoded-bytes-changed-later", fmt.Sprintf("bytes returned by an earlier encode (%s) changed after later encodes (last: %s)", k.label, label), map[string]any{"earlier": k.label, "later": label})
+			k.b = nil
+		}
+	}
+	if len(b) == 0 {
+		return
+	}
+	bytesRing[bytesN%len(bytesRing)] = keptBytes{b, H64(string(b)), label, codec}
+	bytesN++
+}
+
+// allNamesValue builds a moderately populated value typed with the idx-th vocabulary name.
+func allNamesValue(g *vmodel.Gen, idx int) (any, string) {
+	var names []struct {
+		k vmodel.StructKind
+		t string
+	}
+	for _, k := range vmodel.Kinds {
+		for _, t := range k.Types {
+			names = append(names, struct {
+				k vmodel.StructKind
+				t string
+			}{k, t})
+		}
+	}
+	n := names[idx%len(names)]
+	g.PSet = 0.5
+	p := g.Struct(n.k, 1, true)
+	reflect.ValueOf(p).Elem().FieldByName("Type").Set(reflect.ValueOf(vocab.ActivityVocabularyType(n.t)))
+	return p, "all-names " + n.k.Name + "[" + n.t + "]"
+}
+
 // roundTrip runs every pair on x and reports every difference against the canonical tree of x.
 func roundTrip(c *Ctx, codec string, mode vmodel.Mode, pairs []codecPair, x any, label string, onBytes func(pair string, x any, b []byte)) {
 	want := vmodel.Canon(x, mode)
@@ -116,6 +166,7 @@ func roundTrip(c *Ctx, codec string, mode vmodel.Mode, pairs []codecPair, x any,
 		if onBytes != nil {
 			onBytes(p.name, x, b)
 		}
+		keepEncoded(c, codec, b, label)
 		panicked = c.Guard(codec+"."+p.name+".decode", func() { got, err = p.dec(b, x) })
 		c.Eval(1)
 		if panicked {
@@ -226,6 +277,17 @@ func init() {
 					g := caseGen(c, true, idx)
 					x := g.BuildPair(pc, false)
 					roundTrip(c, "json", vmodel.JSON, jsonPairs, x, pc.String(), nil)
+				}},
+				{Name: "all-names", N: 61 * 4, Exhaustive: true, Run: func(c *Ctx, idx int) {
+					x, label := allNamesValue(caseGen(c, true, idx), idx)
+					roundTrip(c, "json", vmodel.JSON, jsonPairs, x, label, nil)
+				}},
+				{Name: "deep", N: tierN(tier, 160, 3000), Run: func(c *Ctx, idx int) {
+					g := caseGen(c, false, idx)
+					g.PSet = 0.12
+					k := vmodel.Kinds[idx%len(vmodel.Kinds)]
+					x := g.Struct(k, 5+idx%3, true)
+					roundTrip(c, "json", vmodel.JSON, jsonPairs, x, fmt.Sprintf("deep %s depth<=%d", k.Name, 5+idx%3), nil)
 				}},
 				{Name: "random", N: tierN(tier, 20000, 400000), Run: func(c *Ctx, idx int) {
 					g := caseGen(c, false, idx)
